@@ -14,7 +14,7 @@ def decPolicies (j : Json) : D (List (PolicyID × Policy)) := do
 
 def showAuthz (r : AuthzResult) : String :=
   let reasons := sortDedup (r.reasons.map fun (i, p) => s!"{hex i}@{showPos p}")
-  let errors := sortDedup (r.errors.map fun (i, p, e) => s!"{hex i}@{showPos p}!{e.name}")
+  let errors := sortDedup (r.errors.map fun (i, p, _) => s!"{hex i}@{showPos p}")
   (if r.allow then "allow" else "deny") ++ " reasons=[" ++ ",".intercalate reasons ++ "] errors=[" ++ ",".intercalate errors ++ "]"
 
 /-- driver state: environments defined once by `defenv` and referenced by name afterwards -/
